@@ -122,3 +122,19 @@ func c09aliased(c *Ctx, tame, wild *c07gen) {
 		}
 	}
 }
+
+// c09deep: inputs with 8 .. 65 levels below the merged root (MergeNodes and MergeNodeSlices copy
+// with DeepCopy / Filter, whose walk may keep a stack of its own: see harness/c07f.go).
+func c09deep(c *Ctx, g *c07gen) {
+	r := c.R
+	for _, depth := range []int{7, 8, 9, 16, 17, 32, 33, 65} {
+		for k := 0; k < c.N(1, 6); k++ {
+			t := c07chain(r, g, depth, k%3)
+			c09nodesCase(c, t, t.Clone(), fmt.Sprintf("deep-%d identical", depth))
+			c09nodesCase(c, t, T(t.Tag, t.Value, t.Ptr, g.node(1)), fmt.Sprintf("deep-%d left", depth))
+			c09nodesCase(c, T(t.Tag, t.Value, t.Ptr, g.node(1)), t, fmt.Sprintf("deep-%d right", depth))
+			c09sliceCase(c, "eq", t.Kids, []*TNode{g.node(1)}, fmt.Sprintf("deep-%d", depth))
+			c09sliceCase(c, "never", []*TNode{g.node(1)}, t.Kids, fmt.Sprintf("deep-%d", depth))
+		}
+	}
+}
